@@ -1,6 +1,7 @@
 (* C04 — generated C layout is a fixed, order-preserving function of the definitions. *)
 Require Import Verif.common.Prelude Verif.model.IntResult Verif.model.Glue Verif.proofs.GlueProofs.
 Require Import Verif.model.Group Verif.proofs.GroupProofs.
+Require Import Verif.model.Layout Verif.gen.RtStructs_Src.
 From Coq Require Import Permutation Sorting.Sorted.
 Open Scope Z_scope.
 
@@ -34,3 +35,9 @@ Proof.
   - eapply NoDup_names_perm; [apply sort_perm|exact N].
 Qed.
 Print Assumptions C04_det.
+
+(* the object itself: `CGlueTraitObj` is #[repr(C)] {vtbl, container} and `CGlueObjContainer` is #[repr(C)] {instance, context, ret_tmp} in
+   /repo's CURRENT source ([rt_structs] is regenerated from cglue/src on every run) *)
+Theorem C04_object_layout : all_compat true object_layout rt_structs = true.
+Proof. vm_compute. reflexivity. Qed.
+Print Assumptions C04_object_layout.
